@@ -17,6 +17,7 @@ func init() {
 			"both NoFreelistSync arms of Commit redefine the meta's freelist pointer; the two backends share one policy implementation and a re-initialised backend forgets its previous content; syncs are skipped only under NoSync. " +
 			"NOT decided (the bulk of the property): equality of logical content and API results across option assignments and reopen schedules, and that the rebuilt list EQUALS the persisted one — relations between runtime contents. Round 3: each option reaches the DB switch of the same name in Open.",
 		Run: func(c *Ctx) {
+			ruleSpanIndexesTogether(c, "C13.R14") // "whichever freelist backend": the hash-map backend keeps its three span indexes in step
 			c04R11(c, "C13.R12") // whether a remap happens depends on InitialMmapSize: the dereference it triggers must leave every key and value what it was
 			c04R6(c, "C13.R13")
 			ruleOptionsWiredByName(c, "C13.R11") // each option reaches the switch of the same name
